@@ -32,6 +32,8 @@ def main():
             ok = True
         else:
             rf = meta.get("rustflags")
+            if not (isinstance(rf, str) and "--cfg" in rf) and "--cfg passage_verif" in json.dumps([meta.get("demo"), meta.get("commands_run")]):
+                rf = "--cfg passage_verif"
             if isinstance(rf, str) and "--cfg" in rf:
                 import re
                 m = re.search(r"--cfg[ =]\w+", rf)
